@@ -189,11 +189,14 @@ def timer_continues(ctx):
         raise RuntimeError("service unavailable")
     t = RepeatedTimer("verif", 0.02, fn)
     t.start()
-    time.sleep(0.3)
+    end = time.time() + 5            # generous: three calls are expected after 0.06 s, a loaded machine gets 5 s
+    while len(calls) < 3 and time.time() < end and t.thread.is_alive():
+        time.sleep(0.01)
+    alive = t.thread.is_alive()
     t.stop()
     ctx.case(dict(timer="failing poll function", calls=len(calls)), bucket="timer")
-    if len(calls) < 3:
-        ctx.fail("the poll loop stopped after a failing poll (%d calls in 0.3 s at a 0.02 s interval)" % len(calls),
+    if len(calls) < 3 or not alive:
+        ctx.fail("the poll loop stopped after a failing poll (%d calls, timer thread alive: %s)" % (len(calls), alive),
                  dict(calls=len(calls)), tag="timer-stopped")
 
 
